@@ -4,6 +4,7 @@ import Vanguard.Lemmas.ReadSizes
 import Vanguard.Lemmas.ReframeStream
 import Vanguard.Lemmas.WriteSplit
 import Vanguard.Lemmas.ReframeSplit
+import Vanguard.Lemmas.WriteSplitN
 import Vanguard.Model.World
 /-!
   C08 — Results do not depend on how bytes are split across reads, writes, flushes.
@@ -161,6 +162,16 @@ theorem every_reframing_read_is_a_stream_step (w : World) (ce se : Enveloper) (s
     (hce : st.op.clientEnveloper = some ce) (hse : st.op.serverEnveloper = some se) (hwf : r.WF) (herr : r.err = none) :
     EStepOk ce se st (erSpec ce se st r) (erRead w st r n) :=
   erRead_step w ce se st r n hn hce hse hwf herr
+
+/-- **Any number of `Write` pieces, any backend output** (re-encoding path): writing `d ++ d₂ ++ … ++ dₙ` with one
+    call or with `n` calls (`thenLoops`: each later call runs only when none before it failed, with the fuel
+    `Write` gives its loop) leaves the client's connection - status, headers, body items, flush positions, end -
+    and the panic flag exactly the same; the output may be malformed, the pieces empty, the cuts anywhere
+    (`TwBuf`: the writer is latched or has its buffer, which `Write` establishes before the loop). -/
+theorem write_pieces_do_not_matter (w : World) (tb : Tables) (ds : List Bytes) (d : Bytes) (F : Nat) (st : St) (t : TW)
+    (hinv : C11.TwInv t) (hbuf : TwBuf t) (hF : C11.muT t (d ++ ds.flatten) < F) :
+    Visible (twLoop w tb F st t (d ++ ds.flatten)) = Visible (thenLoops w tb (twLoop w tb (2 * d.length + 4) st t d) ds) :=
+  twLoop_pieces w tb ds d F st t hinv hbuf hF
 
 /-- **On the re-framing path the split of a well-formed response across `Write` calls does not matter**: any
     two ways of cutting the same sequence of legal backend frames into pieces (inside envelopes, inside
